@@ -17,6 +17,9 @@ Definition show_op (o : op) : string :=
   | OUndef => "undef"
   | OBind => "bind"
   | OClose => "close"
+  | ORest => "rest"
+  | OEmptyRest => "emptyrest"
+  | OBindRest => "bindrest"
   end.
 
 Definition show_outcome (b : list Z) (n : nat) (c : bool) : string :=
@@ -31,3 +34,19 @@ Definition pattern_case (ks : list bool) (p : nat) (it : list Z) : string :=
   | None => "nofuel"
   end ++ "|" ++
   let a := spec Z (-1)%Z ks it in show_outcome (a_bound Z a) (a_nexts Z a) (spec_closed Z (-1)%Z ks it).
+
+(* the same for a pattern ending in a rest element; the outcome lists the positions' values and
+   then the elements of the rest array, separated by "r" *)
+Definition show_outcome_rest (npos : nat) (b : list Z) (n : nat) (c : bool) : string :=
+  String.concat "," (map string_of_Z (firstn npos b)) ++ "r" ++ String.concat "," (map string_of_Z (skipn npos b)) ++
+  "/" ++ string_of_nat n ++ "/" ++ string_of_bool c.
+
+Definition pattern_rest_case (ks : list bool) (p : nat) (it : list Z) : string :=
+  let code := cpattern_rest ks 0 in
+  let npos := List.length (positions ks 0) in
+  String.concat ";" (map show_op (cpattern_rest ks p)) ++ "|" ++
+  match run_halt Z (-1)%Z 99%Z code (20 * (3 + List.length ks)) (mk Z 0 it (RNone Z) 0%Z true [] 0 false) with
+  | Some s => show_outcome_rest npos (bound Z s) (nexts Z s) (closed Z s)
+  | None => "nofuel"
+  end ++ "|" ++
+  let a := spec_rest Z (-1)%Z ks it in show_outcome_rest npos (a_bound Z a) (a_nexts Z a) false.
